@@ -1,11 +1,15 @@
-(* Model of the asynchronous logger: Logger::send / enqueue / stop (include/fix8/logger.hpp:
+(* THE INTERMEDIATE CODE: after the repairs c53d854 and 4b85524, before aa7ec53 (the loop loaded
+   _stopping only AFTER an unsuccessful try_pop).  Kept only for the witness theorem
+   c28_stop_window_intermediate_refuted (C28/MidWitness.v); the current code is C28/LoggerQ.v.
+
+   Model of the asynchronous logger: Logger::send / enqueue / stop (include/fix8/logger.hpp:
    296-312), the consumer loop Logger::operator()() and the "sequence" field of
    process_logline (runtime/logger.cpp:60-140), FIX8_MPMC_SYSTEM == FIX8_MPMC_FF branch,
    as an interleaving model in the convention of DESIGN.md section 4 "Concurrency group":
    [step c t] executes the next atomic action of thread t (one load, one store, one queue
    operation), a schedule is a list of thread ids, [run sched c = fold_left step sched c].
-   No proofs in this file.  This is the code after the repairs c53d854, 4b85524 and aa7ec53; the code
-   before them is C28/LoggerQOrig.v, the code between 4b85524 and aa7ec53 is C28/LoggerQMid.v.
+   No proofs in this file.  This is the code after the repairs c53d854 and 4b85524; the code
+   before them is C28/LoggerQOrig.v.
 
    The queue (ff_unbounded_queue<LogElement> over ff::uMPMC_Ptr_Queue) is abstracted as a FIFO
    list with atomic push and pop; that the real multi-producer queue is linearizable to this
@@ -18,7 +22,8 @@
    [wrote] (the elements written), [dropped] (the element whose empty text made the consumer
    leave its loop), [at_stop] (= [pushed] at the moment stop() executed
    _stopping.request_stop(): the lines "accepted before stop"), [after_stop] (the pushes since
-   then). *)
+   then) and [win] (the pushes made while the consumer was between a try_pop that found the
+   queue empty and the test of _stopping that follows it). *)
 From Coq Require Import ZArith List Bool Arith.
 From F8 Require Import C28.Spec_C28.
 Import ListNotations.
@@ -30,9 +35,9 @@ Inductive tid := P (i : nat) | Cons | Stop.
 (* a producer thread: the submit calls still to make, the number already made, their results *)
 Record pstate := { todo : prog; pidx : nat; rets : list bool }.
 
-(* consumer: about to sample _stopping, at try_pop (holding the sample), holding a popped element
-   to write, or exited *)
-Inductive cpc := CSample | CPop (s : bool) | CWrite (x : qelem) | CExit.
+(* consumer: at try_pop, after a try_pop that found nothing (about to test _stopping), holding
+   a popped element to write, or exited *)
+Inductive cpc := CPop | CChk | CWrite (x : qelem) | CExit.
 (* the thread calling stop(): before, after _stopping.request_stop(), after enqueue(""), after join *)
 Inductive spc := SIdle | SReq | SPushed | SDone.
 
@@ -49,12 +54,13 @@ Record config := {
   wrote : list qelem;            (* ghost *)
   dropped : list qelem;          (* ghost *)
   at_stop : list qelem;          (* ghost *)
-  after_stop : list qelem }.     (* ghost *)
+  after_stop : list qelem;       (* ghost *)
+  win : list qelem }.            (* ghost *)
 
 Definition init (m : Z) (ps : list prog) : config :=
   {| mask := m; prods := map (fun p => {| todo := p; pidx := O; rets := [] |}) ps;
-     queue := []; stopping := false; cons := CSample; seqno := O; file := []; stopper := SIdle;
-     pushed := []; wrote := []; dropped := []; at_stop := []; after_stop := [] |}.
+     queue := []; stopping := false; cons := CPop; seqno := O; file := []; stopper := SIdle;
+     pushed := []; wrote := []; dropped := []; at_stop := []; after_stop := []; win := [] |}.
 
 (* _msg_queue.try_push(le): always succeeds *)
 Definition try_push (q : list qelem) (x : qelem) : list qelem * bool := (q ++ [x], true).
@@ -72,6 +78,8 @@ Fixpoint upd {A} (l : list A) (i : nat) (x : A) : list A :=
 (* ghost bookkeeping of one push *)
 Definition g_after (c : config) (x : qelem) : list qelem :=
   match stopper c with SIdle => after_stop c | _ => after_stop c ++ [x] end.
+Definition g_win (c : config) (x : qelem) : list qelem :=
+  match cons c with CChk => win c ++ [x] | _ => win c end.
 
 (* producer i makes its next call: send(what, lev) { return is_loggable(lev) ? enqueue(what, lev) : true; } *)
 Definition step_prod (c : config) (i : nat) : config :=
@@ -87,26 +95,25 @@ Definition step_prod (c : config) (i : nat) : config :=
             {| mask := mask c; prods := upd (prods c) i {| todo := rest; pidx := S (pidx ps); rets := rets ps ++ [r] |};
                queue := q'; stopping := stopping c; cons := cons c; seqno := seqno c; file := file c;
                stopper := stopper c; pushed := pushed c ++ [x]; wrote := wrote c; dropped := dropped c;
-               at_stop := at_stop c; after_stop := g_after c x |}
+               at_stop := at_stop c; after_stop := g_after c x; win := g_win c x |}
           else
             {| mask := mask c; prods := upd (prods c) i {| todo := rest; pidx := S (pidx ps); rets := rets ps ++ [true] |};
                queue := queue c; stopping := stopping c; cons := cons c; seqno := seqno c; file := file c;
                stopper := stopper c; pushed := pushed c; wrote := wrote c; dropped := dropped c;
-               at_stop := at_stop c; after_stop := after_stop c |}
+               at_stop := at_stop c; after_stop := after_stop c; win := win c |}
       end
   end.
 
-Definition set_cons (c : config) (k : cpc) : config :=
+Definition set_cons (c : config) (k : cpc) (w : list qelem) : config :=
   {| mask := mask c; prods := prods c; queue := queue c; stopping := stopping c; cons := k; seqno := seqno c;
      file := file c; stopper := stopper c; pushed := pushed c; wrote := wrote c; dropped := dropped c;
-     at_stop := at_stop c; after_stop := after_stop c |}.
+     at_stop := at_stop c; after_stop := after_stop c; win := w |}.
 
 (* the consumer thread:
      for (;;) {
-        const bool stopping(_stopping);   // sampled before the queue is polled        CSample
-        if (!_msg_queue.try_pop(msg_ptr))                                             CPop s
+        if (!_msg_queue.try_pop(msg_ptr))                  CPop
         {
-           if (stopping) break;    // queue drained       (the sample is thread-local: same step)
+           if (_stopping) break;    // queue drained        CChk   (a separate load: other threads can run in between)
            hypersleep<h_microseconds>(200); continue;
         }
         if (msg_ptr->_str.empty()) break;                  (still CPop: thread-local)
@@ -114,25 +121,25 @@ Definition set_cons (c : config) (k : cpc) : config :=
      }                                                                                          *)
 Definition step_cons (c : config) : config :=
   match cons c with
-  | CSample => set_cons c (CPop (stopping c))
-  | CPop s =>
+  | CPop =>
       match queue c with
-      | [] => if s then set_cons c CExit else set_cons c CSample
+      | [] => set_cons c CChk []
       | x :: q' =>
           match q_text x with
           | [] => {| mask := mask c; prods := prods c; queue := q'; stopping := stopping c; cons := CExit;
                      seqno := seqno c; file := file c; stopper := stopper c; pushed := pushed c; wrote := wrote c;
-                     dropped := dropped c ++ [x]; at_stop := at_stop c; after_stop := after_stop c |}
+                     dropped := dropped c ++ [x]; at_stop := at_stop c; after_stop := after_stop c; win := [] |}
           | _ :: _ => {| mask := mask c; prods := prods c; queue := q'; stopping := stopping c; cons := CWrite x;
                          seqno := seqno c; file := file c; stopper := stopper c; pushed := pushed c; wrote := wrote c;
-                         dropped := dropped c; at_stop := at_stop c; after_stop := after_stop c |}
+                         dropped := dropped c; at_stop := at_stop c; after_stop := after_stop c; win := [] |}
           end
       end
+  | CChk => if stopping c then set_cons c CExit (win c) else set_cons c CPop []
   | CWrite x =>
-      {| mask := mask c; prods := prods c; queue := queue c; stopping := stopping c; cons := CSample;
+      {| mask := mask c; prods := prods c; queue := queue c; stopping := stopping c; cons := CPop;
          seqno := S (seqno c); file := file c ++ [(S (seqno c), q_text x)]; stopper := stopper c;
          pushed := pushed c; wrote := wrote c ++ [x]; dropped := dropped c;
-         at_stop := at_stop c; after_stop := after_stop c |}
+         at_stop := at_stop c; after_stop := after_stop c; win := [] |}
   | CExit => c
   end.
 
@@ -141,16 +148,16 @@ Definition step_stop (c : config) : config :=
   match stopper c with
   | SIdle => {| mask := mask c; prods := prods c; queue := queue c; stopping := true; cons := cons c;
                 seqno := seqno c; file := file c; stopper := SReq; pushed := pushed c; wrote := wrote c;
-                dropped := dropped c; at_stop := pushed c; after_stop := [] |}
+                dropped := dropped c; at_stop := pushed c; after_stop := []; win := win c |}
   | SReq => let x := {| q_src := None; q_text := [] |} in
             let (q', _) := enqueue (queue c) x in
             {| mask := mask c; prods := prods c; queue := q'; stopping := stopping c; cons := cons c;
                seqno := seqno c; file := file c; stopper := SPushed; pushed := pushed c ++ [x]; wrote := wrote c;
-               dropped := dropped c; at_stop := at_stop c; after_stop := after_stop c ++ [x] |}
+               dropped := dropped c; at_stop := at_stop c; after_stop := after_stop c ++ [x]; win := g_win c x |}
   | SPushed => match cons c with
                | CExit => {| mask := mask c; prods := prods c; queue := queue c; stopping := stopping c; cons := cons c;
                              seqno := seqno c; file := file c; stopper := SDone; pushed := pushed c; wrote := wrote c;
-                             dropped := dropped c; at_stop := at_stop c; after_stop := after_stop c |}
+                             dropped := dropped c; at_stop := at_stop c; after_stop := after_stop c; win := win c |}
                | _ => c                                   (* join blocks *)
                end
   | SDone => c
@@ -227,7 +234,7 @@ Definition sched_for (m : Z) (order : list nat) (ps : list prog) : list tid :=
                    | None => ([], ps1)
                    end in
   let producers := s1 ++ s2 ++ sched_rest O ps2 in
-  producers ++ repeat Cons (3 * S (total_calls ps)) ++ [Stop; Cons; Cons; Cons; Stop; Cons; Cons; Cons; Cons; Stop].
+  producers ++ repeat Cons (3 * S (total_calls ps)) ++ [Stop; Cons; Cons; Cons; Stop; Cons; Cons; Cons; Stop].
 
 Definition run_case (m : Z) (order : list nat) (ps : list prog) : obs :=
   observe (run (sched_for m order ps) (init m ps)).
